@@ -211,7 +211,7 @@ class HistGen:
         r = self.r
         if not self.opts.get("faults", False) or not r.chance(self.opts.get("fault_rate", 0.12)):
             return "-"
-        k = r.weighted([("f", 4), ("s", 3), ("S", 3), ("g", 3), ("b", 2)])
+        k = r.weighted([("f", 4), ("s", 3), ("S", 3), ("g", 3), ("b", 2), ("u", 2)])
         if k == "f":
             return "f%d" % r.below(batch_n)
         if k == "g":
@@ -368,6 +368,10 @@ def compare_lines(ops, impl, model):
         ml = model[i] if i < len(model) else "<missing>"
         k = op.split()[0]
         if k in ("att", "atts", "atts0", "prop", "sign", "msign"):
+            f_ = op.split()
+            fl_ = f_[5] if k in ("att", "prop", "sign") and len(f_) > 5 else (f_[3] if k in ("atts", "msign") and len(f_) > 3 else "-")
+            if "u" in fl_.split(","):
+                continue     # lock state undeterminable: judged by "no signature", not by the model's states
             if states_of(il) != states_of(ml):
                 bad.append((i, op, il, ml))
         else:
